@@ -149,7 +149,7 @@ def judge(records, wd, shards=6):
     return verdicts, results
 
 
-def build_cases(tier, seed, wd, run):
+def build_cases(tier, seed, wd, run, wide=False):
     rng = random.Random(seed)
     cases = []
     tlc_results = []
@@ -177,6 +177,23 @@ def build_cases(tier, seed, wd, run):
         G = random_grammar(rng)
         pres = grammar.present(G, rng, payload=None)
         cases.append({"G": G, "pres": pres, "src": grammar.render(G, pres), "origin": "random"})
+    # one-dimension scale: ONE rule with more than 256 fields (dot positions beyond a byte), between short rules
+    # (TLC needs about two minutes to judge one of them, so the quick tier has a single one and only in the C17 check;
+    # the thorough tier of C04, C11 and C17 has six)
+    for k in range(0 if not wide else 1 if tier == "quick" else 6):
+        n = [257, 258, 300, 257, 259, 512][k]
+        a = "$Ta" if k % 2 == 0 else "A"        # the repeated symbol: a terminal, or a nonterminal with one production
+        G = {"nts": ["S", "B", "C"] + (["A"] if a == "A" else []), "ts": ["$Ta", "$Tb", "$Tc"], "start": "S",
+             "rules": [{"lhs": "S", "rhs": ["B"]}, {"lhs": "S", "rhs": [a] * n + ["B"]}, {"lhs": "S", "rhs": ["C", a]},
+                       {"lhs": "B", "rhs": ["$Tb"]}, {"lhs": "C", "rhs": ["$Tc"]}] + ([{"lhs": "A", "rhs": ["$Ta"]}] if a == "A" else [])}
+        pres = grammar.present(G, rng)
+        pres["nts"] = list(G["nts"])
+        cases.append({"G": G, "pres": pres, "src": grammar.render(G, pres), "origin": "wide-rule"})
+    for _ in range(150 if tier == "quick" else 3000):
+        G = chain_grammar(rng)
+        pres = grammar.present(G, rng)
+        pres["nts"] = list(G["nts"])
+        cases.append({"G": G, "pres": pres, "src": grammar.render(G, pres), "origin": "chain"})
     seen = set()
     for _ in range(2500 if tier == "quick" else 40000):
         G = bracket_grammar(rng)
@@ -188,6 +205,42 @@ def build_cases(tier, seed, wd, run):
         pres["ts"] = list(G["ts"])
         cases.append({"G": G, "pres": pres, "src": grammar.render(G, pres), "origin": "bracket"})
     return cases, tlc_results
+
+
+def chain_grammar(rng):
+    """A chain A1 -> A2 -> ... -> An of 4-10 nonterminals declared top-down (each before the one it refers to), nullable
+    through its last member, optionally left-recursive through it (An -> A1 t), with FIRST(A1) feeding a lookahead:
+    nullability needs n passes to climb, the terminals another n - the regime where an iteration that gives up early, or a
+    wrong 'changed' test, shows."""
+    n = rng.randint(4, 10)
+    A = ["A%d" % i for i in range(1, n + 1)]
+    ts = ["$Tb", "$Tt", "$Tu"]
+    if rng.random() < 0.3:
+        # a reduce/reduce conflict that exists only because a terminal climbs the whole chain into FIRST(A1)
+        rules = [{"lhs": "S", "rhs": ["B", "A1"]}, {"lhs": "S", "rhs": ["Q", "$Tt"]}, {"lhs": "B", "rhs": ["$Tb"]}, {"lhs": "Q", "rhs": ["$Tb"]}]
+    else:
+        rules = [{"lhs": "S", "rhs": rng.choice([["B", "A1"], ["B", "A1", "$Tu"], ["A1", "B"], ["B", "A1", "B"]])}, {"lhs": "B", "rhs": ["$Tb"]}]
+    pure = len(rules) == 4 or rng.random() < 0.6      # the conflict variant is always a pure chain: its ONLY conflict is the late one
+    for i in range(n - 1):
+        rules.append({"lhs": A[i], "rhs": [A[i + 1]] if pure or rng.random() < 0.93 else [A[i + 1], A[min(n - 1, i + 2)]]})
+        if not pure and rng.random() < 0.1:
+            rules.append({"lhs": A[i], "rhs": [ts[2]]})
+    last = [{"lhs": A[-1], "rhs": []}]
+    r = rng.random()
+    if len(rules) - (n - 1) == 4 or r < 0.6:
+        last.append({"lhs": A[-1], "rhs": ["A1", "$Tt"]})
+    elif r < 0.8:
+        last.append({"lhs": A[-1], "rhs": ["$Tt", "A1"]})
+    elif r < 0.9:
+        last.append({"lhs": A[-1], "rhs": ["$Tt"]})
+    rules += last
+    head = ["S", "B"] + (["Q"] if any(r["lhs"] == "Q" for r in rules) else [])
+    nts = head + A
+    if rng.random() < 0.25:      # sometimes bottom-up or shuffled: the control group
+        order = A[::-1] if rng.random() < 0.5 else rng.sample(A, len(A))
+        nts = head + order
+    G = {"nts": nts, "ts": ts, "start": "S", "rules": rules}
+    return reorder_rules(G, nts)
 
 
 def repo_grammar_files():
@@ -228,10 +281,10 @@ def reorder_rules(G, order):
     return dict(G, rules=rules)
 
 
-def execute(tier, seed, run, wd):
+def execute(tier, seed, run, wd, wide=False):
     """Shared by C04, C11, C17: returns (cases, verdicts)."""
     common.build_harness()
-    cases, tlcs = build_cases(tier, seed, wd, run)
+    cases, tlcs = build_cases(tier, seed, wd, run, wide)
     for r in tlcs:
         run.add_tlc(r)
     t0 = __import__("time").time()
@@ -385,7 +438,7 @@ def check(prop, tier, seed):
     bg = cf.ThreadPoolExecutor(max_workers=1)
     design = bg.submit(design_level, prop, tier, run)
     t0 = __import__("time").time()
-    cases = execute(tier, seed, run, wd)
+    cases = execute(tier, seed, run, wd, wide=(prop == "C17" or tier == "thorough"))
     log("  [%.0fs] real code executed and judged (%d cases)" % (__import__("time").time() - t0, len(cases)))
     prefix = prop + ":"
     classes = {}
@@ -472,7 +525,9 @@ def design_level(prop, tier, run):
     if prop == "C11":
         u = "U1"      # C04 and C11 share MC_TableFill; its U2 exploration (> 10^8 states) is run once, by C04's thorough tier
     if prop == "C17":
-        models = [("MC_FirstSets", "MC_FirstSets", u), ("MC_Closure", "MC_Closure", u), ("MC_Closure", "MC_ClosureFifo", u),
+        # the closure models stay on U1 in both tiers: their initial states (grammar x kernel x queue order, each needing the
+        # canonical collection) are generated on one thread - over U2 that alone runs for more than 25 minutes
+        models = [("MC_FirstSets", "MC_FirstSets", u), ("MC_Closure", "MC_Closure", "U1"), ("MC_Closure", "MC_ClosureFifo", "U1"),
                   ("MC_Builder", "MC_Builder", u), ("MC_Builder", "MC_BuilderFifo", u)]
     else:
         # every item order x every fill order: U2 itself is out of reach (> 1.3 * 10^8 states, unfinished after 70 min);
